@@ -20,10 +20,6 @@ open Gts.Mem Gts.Mem.Heap
 /-- the capacity policy used by the driver (never observable in a dump) -/
 def memGrow : Grow := fun _ _ => 0
 
-def decNat? (s : Sexp) : Option Nat := do
-  let i ← decInt? s
-  if i < 0 then none else pure i.toNat
-
 def decSlice4? : List Sexp → Option (Slice × List Sexp)
   | a :: o :: l :: c :: rest => do pure (⟨← decNat? a, ← decNat? o, ← decNat? l, ← decNat? c⟩, rest)
   | _ => none
